@@ -25,7 +25,7 @@ META = {
     "level_note": "Trusted: Lean kernel + standard axioms; Qiskit sorts circuit.parameters by name and assign_parameters(list) follows that order (validated "
     "on every generated circuit); circuit_to_gate/decompose/compose preserve the unitary; NamesInjective is a hypothesis (Qiskit rejects duplicate "
     "parameter names). Hand-written model tied by sampled correspondence.",
-    "rule": "cases = individuals (random constructors 1-6 qubits x 1-6 layers; 11-25 layers; 11-14 qubits; hand-made incl. 1 qubit, parameter-less and repeated "
+    "rule": "cases = individuals (random constructors 1-6 qubits x 1-6 layers; 11-25 layers; 101-130 layers (thorough: also 1001-1030); 11-14 qubits; hand-made incl. 1 qubit, parameter-less and repeated "
     "layers; angles inside and outside [0,2pi) incl. negative) x symbolic layer sets {none, all, singletons, random, negative ids} x replacement "
     "vectors; compared: Qiskit's parameter order vs model order; the float bound to every gate of every view vs model binding; oracle: views give "
     "identical bound gate sequences, and (<= 6 qubits) Operator.equiv between views. non-trivial = >= 2 layers with parameters; distinct = "
@@ -133,6 +133,15 @@ def run(ctx):
         if x.n_qubits <= 6:
             for lid in {rng.randrange(nl), -1, 0}:
                 check_change(ctx, x, lid, rng)
+    # deep individuals: layer ids cross the decimal boundaries 100 and (thorough) 1000 of the zero-padded names
+    deep = [(rng.randint(101, 130), rng.randint(1, 2))] + ([(rng.randint(1001, 1030), 1), (rng.randint(101, 300), 2)] if ctx.thorough() else [])
+    for nl, nq in deep:
+        if ctx.out_of_time():
+            break
+        x = EVQEIndividual.random_individual(nq, nl, True, rng.randrange(2**31))
+        for S in ([], [3, 10, 100, nl - 1], list(range(0, nl, 7))):
+            check_views(ctx, x, S, rng, "deep")
+        check_change(ctx, x, 100, rng)
     # the repaired finding F2: 2 qubits, 12 layers, seed 5
     x = EVQEIndividual.random_individual(2, 12, True, 5)
     for S in ([], list(range(12)), [10], [2, 10, 11]):
